@@ -68,6 +68,7 @@ func (ht *hashtable) init(size int) {
 func (ht *hashtable) freeze() {
 	if !ht.frozen {
 		ht.frozen = true
+		vFreeze(ht)
 		for e := ht.head; e != nil; e = e.next {
 			e.key.Freeze()
 			e.value.Freeze()
@@ -393,6 +394,7 @@ func (ht *hashtable) dump() {
 func (ht *hashtable) iterate() *keyIterator {
 	if !ht.frozen {
 		ht.itercount++
+		vIter(1, ht)
 	}
 	return &keyIterator{ht: ht, e: ht.head}
 }
@@ -414,6 +416,7 @@ func (it *keyIterator) Next(k *Value) bool {
 func (it *keyIterator) Done() {
 	if !it.ht.frozen {
 		it.ht.itercount--
+		vIter(-1, it.ht)
 	}
 }
 
@@ -421,6 +424,8 @@ func (it *keyIterator) Done() {
 func (ht *hashtable) entries(yield func(k, v Value) bool) {
 	if !ht.frozen {
 		ht.itercount++
+		vIter(1, ht)
+		defer vIter(-1, ht)
 		defer func() { ht.itercount-- }()
 	}
 	for e := ht.head; e != nil && yield(e.key, e.value); e = e.next {
